@@ -34,6 +34,7 @@ def run(rep, tier):
     c07.point_kernel(rep, F, rule="R15.5")
     arc_length_laws(rep, F)
     deprecated_twins(rep, F)
+    euclidean_primitives(rep, F)
 
 
 def table(F, fn, loop_bound=1):
@@ -469,3 +470,62 @@ def deprecated_twins(rep, F):
             n_ok += 1
             rep.ok("R15.7", "twins:%s[%d evaluations]" % (name, k))
     rep.floor("R15.7", "twin tables", n_ok, 2)
+
+
+def euclidean_primitives(rep, F):
+    """R15.8: the segment primitives R15.6 assumes, decided on witnesses through their extracted tables: Euclidean.point_at_ratio_between(a, b, r)
+    = a + (b - a) * r and Euclidean.point_at_distance_between(a, b, d) = a + (b - a) * d / |b - a| (Point operators of geo_types inlined)."""
+    import math
+    from ..numeval import NumEval
+    from ..evalterm import NoModel
+    rep.rule("R15.8", "Euclidean segment primitives on witnesses: point_at_ratio_between(a, b, r) = a + (b - a) r; point_at_distance_between(a, b, d) = a + (b - a) d / |b - a|")
+    IP = "geo::algorithm::line_measures::interpolate_point::InterpolatePoint"
+    pts = [(0.0, 0.0), (3.0, 4.0), (-2.0, 5.0), (6.0, -8.0)]
+    n_ok = 0
+    for meth, vals, ref in (("point_at_ratio_between", (-0.5, 0.0, 0.25, 0.5, 1.0, 1.5), lambda a, b, v: (a[0] + (b[0] - a[0]) * v, a[1] + (b[1] - a[1]) * v)),
+                            ("point_at_distance_between", (0.0, 1.0, 2.5, 5.0, 12.0), lambda a, b, v: (a[0] + (b[0] - a[0]) * v / math.hypot(b[0] - a[0], b[1] - a[1]), a[1] + (b[1] - a[1]) * v / math.hypot(b[0] - a[0], b[1] - a[1])))):
+        try:
+            fn = None
+            for im in F.impls_of(IP):
+                if im["self_ty"].endswith("euclidean::Euclidean"):
+                    fn = F.impl_fn(im, meth)
+            if fn is None:
+                raise KeyError("Euclidean::%s" % meth)
+            paths = [p for p in Symex(F, inline_crates=("geo", "geo_types"), max_depth=12).run(fn) if p.kind != "cut"]
+        except (KeyError, Unanalysable) as e:
+            rep.bad("R15.8", "euclidean:%s:unanalysable" % meth, str(e))
+            continue
+        bad = None
+        k = 0
+        for a in pts:
+            for b in pts:
+                if a == b:
+                    continue
+                for v in vals:
+                    ev = NumEval(F, {("arg", 1): "euclidean", ("arg", 2): {"0": {"x": a[0], "y": a[1]}}, ("arg", 3): {"0": {"x": b[0], "y": b[1]}}, ("arg", 4): v})
+                    try:
+                        hit = ev.select_path(paths)
+                        if len(hit) != 1 or hit[0].kind != "ret":
+                            raise NoModel("row selection %s" % [h.kind for h in hit])
+                        r = ev.ev(hit[0].ret)
+                        while isinstance(r, dict) and "0" in r and "x" not in r:
+                            r = r["0"]
+                        got = (float(r["x"]), float(r["y"]))
+                    except (NoModel, TypeError, KeyError, ValueError) as e:
+                        bad = "cannot be evaluated on %s, %s, %s: %s" % (a, b, v, e)
+                        break
+                    want = ref(a, b, v)
+                    k += 1
+                    if abs(got[0] - want[0]) > 1e-9 or abs(got[1] - want[1]) > 1e-9:
+                        bad = "%s(%s, %s, %s) = %s, expected (%.6g, %.6g)" % (meth, a, b, v, got, want[0], want[1])
+                        break
+                if bad:
+                    break
+            if bad:
+                break
+        if bad:
+            rep.bad("R15.8", "euclidean:%s" % meth, bad, where=fn.loc())
+        else:
+            n_ok += 1
+            rep.ok("R15.8", "euclidean:%s[%d witnesses]" % (meth, k))
+    rep.floor("R15.8", "Euclidean primitives", n_ok, 2)
